@@ -21,11 +21,11 @@ CHECKS = {
    text='Inverse pairs are derived from the declared signatures (constructors/members with 1-4 arguments, operator pairs by algebra, planar embedding): about 2000 pairs per numeric type. A(C(a,b..),b..) must return a within 4(1+kappa) ulp, kappa measured per case by one-ulp perturbations; the planar embedding is bit-exact.',
    note='"A few ulps" is read relative to the measured conditioning of the composed map (DESIGN 4.6).', ref='5 C05'),
  'C06': dict(engine='symx+dims', technique='exhaustive enumeration against the symbol-expansion oracle + ' + PBT + ' for Dimensions printing/ordering/hash',
-   text='Exhaustive: all 514 unit symbols expand (lexicon) to the dimension set their unit type declares; all 92 quantity types report the set of their unit type in 3 numeric types. Generated: Dimensions objects over the box [-1,1]^7 (all ordered pairs) and random tuples in [-9,9]^7 against a reference printer, lexicographic order, hash and container oracle.',
+   text='Exhaustive: all 514 unit symbols expand (lexicon) to the dimension set their unit type declares; all 92 quantity types report the set of their unit type in 3 numeric types. Generated: Dimensions objects over the box [-1,1]^7 (all ordered pairs) and random tuples in [-9,9]^7 against a reference printer (Print, JSON, XML, YAML, stream), lexicographic order, hash and container oracle.',
    note='Trusted: the unit lexicon.', ref='5 C06'),
- 'C07': dict(engine='symx', technique='exhaustive enumeration with exact rational arithmetic (finite space; no generation needed)',
-   text='All 4 systems x 37 unit types: the consistent unit\'s exact SI magnitude (Fractions) equals the product of the system base units (read from the system\'s own abbreviation) raised to the type\'s dimension exponents; the standard system gives the standard units; RelatedUnitSystem for all 514 units equals the stated function of the forward table.',
-   note='Trusted: the unit lexicon. The space is finite and is enumerated completely.', ref='5 C07'),
+ 'C07': dict(engine='symx+units', technique='exhaustive enumeration with exact rational arithmetic (tables) + ' + PBT + ' on generated values through the library\'s own conversions (value-level coherence)',
+   text='All 4 systems x 37 unit types: the consistent unit\'s exact SI magnitude (Fractions) equals the product of the system base units (read from the system\'s own abbreviation) raised to the type\'s dimension exponents; the standard system gives the standard units; RelatedUnitSystem for all 514 units equals the stated function of the forward table. Value level: for every unit type x numeric type x system a generated value in the consistent unit converts to/from the standard unit by exactly the product of the base units (4 ulp).',
+   note='Trusted: the unit lexicon. The table space is finite and is enumerated completely; the value quantifier is sampled.', ref='5 C07 and 0.2'),
  'C08': dict(engine='symx+enums+fuzz', technique='exhaustive enumeration against the lexicon + ' + PBT + ' string mutation + libFuzzer on ParseEnumeration',
    text='Exhaustive: every enumerator of the 39 enum declarations has a unique abbreviation, streams as it, parses back, has both conversion rows; each of ~2050 accepted spellings denotes (lexicon, exact) the magnitude of the enumerator it parses to. Generated: single-edit mutations of spellings, random strings and (thorough) coverage-guided bytes must parse to nothing unless they are keys.',
    note='Trusted: the unit lexicon; ambiguous atoms (lb, C, NM, as ...) accept any alternative of matching dimensions.', ref='5 C08'),
@@ -48,7 +48,7 @@ CHECKS = {
    text='All 92 quantity types, the 4 vector/tensor types, Dimensions and the 3 model classes x 3 numeric types: six operators equal the lexicographic IEEE comparison of the stored components on triples with forced ties, +-0, +-inf; equal => equal hash; collections in ordered and unordered containers.',
    note='No NaN components.', ref='5 C14'),
  'C15': dict(engine='qty', technique=PBT + ' + exhaustive enumeration of all 2^32 float bit patterns (thorough); round trip print -> parse; reference formatter; strict JSON parser',
-   text='Number level: thorough = every float bit pattern; quick = every 997th + boundary neighbourhoods + stratified random doubles/long doubles: notation, max_digits10+1 significant digits, bit-exact parse-back. Composite level: Print/JSON/XML/YAML/<< of every quantity type and unit equal a reference formatter; JSON accepted by an RFC 8259 parser with bit-exact fields.',
+   text='Number level: thorough = every float bit pattern; quick = every 997th + boundary neighbourhoods + stratified random doubles/long doubles: notation, max_digits10+1 significant digits, bit-exact parse-back. Composite level: Print/JSON/XML/YAML/<< of every quantity type and unit equal a reference formatter; JSON accepted by an RFC 8259 parser with bit-exact fields; the four vector/tensor types likewise.',
    note='Finite normal numbers.', ref='5 C15'),
  'C16': dict(engine='qty+math', technique=PBT + ': reference model (static_cast per slot), round trip widen -> narrow',
    text='92 quantity types + 4 math types x 6 ordered numeric-type pairs x {converting constructor, converting assignment}: slot i has the bits of static_cast<T2>(slot i); widen-narrow identity; directions within 2 ulp (coarser type) of the cast and unit length.',
@@ -63,7 +63,7 @@ CHECKS = {
    text='Small multi-TU programs with namespace-scope probes over every table-backed facility are generated, built with g++ and clang++ at -O0 and -O2, and every value computed before main() is compared with the same expression inside main().',
    note='Explores the initialisation orders the two installed compilers emit; the GCC conversion-dispatch defect is a listed known finding.', ref='5 C19'),
  'C20': dict(engine='san+fuzz', technique='the generators of all other properties re-run under ASan+UBSan+libstdc++ assertions; libFuzzer with differential oracles on the two parsers',
-   text='Every rapidcheck property is re-run in a sanitizer build (address, undefined incl. enum/overflow/bounds, _GLIBCXX_ASSERTIONS) with any exception other than bad_alloc recorded; ParseNumber<float|double|long double> and ParseEnumeration<E> (39 types) are fuzzed on arbitrary bytes against strtof/strtod/strtold and the key sets.',
+   text='Every rapidcheck property is re-run in a sanitizer build (address, undefined incl. enum/overflow/bounds, _GLIBCXX_ASSERTIONS) with any exception other than bad_alloc recorded; ParseNumber<float|double|long double> and ParseEnumeration<E> (39 types) are fuzzed on arbitrary bytes against strtof/strtod/strtold and the key sets; remaining public members (Dimensions serialisations, whole-array accessors/mutators of the math types) are swept against simple models; valgrind memcheck pass for uninitialised reads.',
    note='Bounded by what ASan/UBSan/libstdc++ assertions can observe; MSan is not usable here.', ref='5 C20'),
 }
 
